@@ -70,8 +70,8 @@ impl Monitor for C15 {
     fn cases(&self, tier: Tier) -> u64 {
         (RATES.len() * EPSILONS.len() * MEANS.len()) as u64
             + match tier {
-                Tier::Quick => 1_500,
-                Tier::Thorough => 60_000,
+                Tier::Quick => 20_000,
+                Tier::Thorough => 400_000,
             }
     }
     fn required_counters(&self) -> Vec<&'static str> {
